@@ -4,7 +4,9 @@ from __future__ import annotations
 import datetime
 import json
 import math
+import random as _real_random
 import threading as _real_threading
+import time as _real_time
 from fractions import Fraction
 
 from . import common
@@ -67,9 +69,12 @@ def qpair(x) -> list:
 
 
 class _Shim:
-    """stand-in for a module inside the module under test (threading / random)"""
+    """stand-in for a module inside the module under test (threading / random / time): every attribute of the real
+    module `base`, with the given ones replaced"""
 
-    def __init__(self, **kw):
+    def __init__(self, base=None, **kw):
+        if base is not None:
+            self.__dict__.update({k: v for k, v in vars(base).items() if not k.startswith("__")})
         self.__dict__.update(kw)
 
 
@@ -94,8 +99,8 @@ def patch_env(initial_delay_box):
     import flexstack.facilities.ca_basic_service.cam_transmission_management as ctm
     time_service.TimeService.time = staticmethod(_vtime)
     ctm.TimeService.time = staticmethod(_vtime)
-    ctm.threading = _Shim(Timer=FakeTimer, Lock=_real_threading.Lock, RLock=_real_threading.RLock)
-    ctm.random = _Shim(uniform=lambda a, b: min(b, max(a, initial_delay_box[0])))
+    ctm.threading = _Shim(_real_threading, Timer=FakeTimer)
+    ctm.random = _Shim(_real_random, uniform=lambda a, b: min(b, max(a, initial_delay_box[0])))
     return ctm
 
 
@@ -197,6 +202,7 @@ def run_cam_script(script: dict):
         ops.append({"op": "check", "t": VCLOCK.ms, "sent": btp.sent[n0:],
                     "t_gen": getattr(mgr, "t_gen_cam", None), "n_cnt": getattr(mgr, "_n_gen_cam_counter", None)})
     return {"ops": ops, "reports": reports, "errors": errors, "pending_timers": len(FakeTimer.pending()),
+            "intervals": [x[2] for x in FakeTimer.log if x[0] == "start"],
             "active": getattr(mgr, "_active", None)}
 
 
@@ -259,6 +265,10 @@ def analyse_cam(ctx, script, obs, tag):
     for (t, name, msg) in obs["errors"]:
         cur_t[0] = t
         ctx.property_failure("cam_timer_exception", mk(), f"exception {name} escaped the T_CheckCamGen callback at {t}: {msg}")
+    if obs.get("intervals") and max(obs["intervals"]) > 0.1 + 1e-9:
+        # the gap bounds of the property are "plus one check period"; the period itself must not exceed T_GenCamMin
+        ctx.property_failure("cam_check_period", mk(), "the service schedules its generation check later than T_GenCamMin "
+                             "(100 ms) ahead", 0.1, max(obs["intervals"]))
     active = False
     cur = None              # id of the latest report
     last_cam = None         # dict(t, rid) of the last CAM of this activation
@@ -482,6 +492,8 @@ def gen_cam_script(rng, kind: str, duration_ms: int, t0=None):
     speed = dy(rng.randrange(0, 40 * 64))
     track = dy(rng.randrange(0, 360 * 64))
     p_miss = {k: (rng.choice([0, 0, 0, 0.05, 0.5, 1.0]) if kind == "missing" else 0.0) for k in ("track", "speed", "pos")}
+    if kind == "notrack":        # a receiver that never reports a course: no heading reference is ever stored
+        p_miss["track"] = 1.0
     decimal = kind == "decimal"
     events = []
     t = t0 + rng.randrange(0, 1000)
@@ -572,8 +584,8 @@ def gen_cam_script(rng, kind: str, duration_ms: int, t0=None):
             "station_type": rng.choice([5, 5, 2, 4, 15]), "events": events, "end": t0 + duration_ms}
 
 
-CAM_KINDS = ("constant", "accel", "turn", "stopgo", "missing", "gaps", "restart", "near", "decimal", "gdtwrap", "mixed",
-             "jitterrep")
+CAM_KINDS = ("constant", "accel", "turn", "stopgo", "missing", "notrack", "gaps", "restart", "near", "decimal", "gdtwrap",
+             "mixed", "jitterrep")
 
 
 # --------------------------------------------------------------------------- VAM
@@ -702,16 +714,16 @@ def analyse_vam(ctx, script, obs, tag):
         if last is not None:
             gap = rep["ts"] - last["ts"]
             if gap < 100:
-                r0 = reps[last["i"]]
+                # a dynamics trigger = the report differs from the CONTENT of the previous VAM (what the standard's
+                # conditions 2-4 compare with), i.e. from the values decoded from it (unavailable codes included)
+                c0 = last["c"]
                 dyn = []
-                if "speed" in rep and "speed" in r0 and abs(rep["speed"] - r0["speed"]) > 0.4:
+                if "speed" in rep and abs(rep["speed"] - c0["speed"] / 100) > 0.4:
                     dyn.append("speed")
-                if "track" in rep and "track" in r0 and ang_diff(rep["track"], r0["track"]) > 3.5:
+                if "track" in rep and ang_diff(rep["track"], c0["heading"] / 10) > 3.5:
                     dyn.append("heading")
-                if haspos != ("lat" in r0 and "lon" in r0) or (haspos and haversine_m(r0["lat"], r0["lon"], rep["lat"], rep["lon"]) > 3.5):
+                if haspos and math.hypot(rep["lat"] - c0["lat"] / 1e7, rep["lon"] - c0["lon"] / 1e7) > 3.5:
                     dyn.append("position")
-                if ("speed" in rep) != ("speed" in r0) or ("track" in rep) != ("track" in r0):
-                    dyn.append("availability")
                 cls = "vam_min_gap_dynamics_trigger" if dyn else "vam_min_gap"
                 ctx.property_failure(cls, mk(), f"report {i}: VAMs {gap} ms apart on the reports' timestamps"
                                      + (f" (after a change of {','.join(dyn)})" if dyn else ""), 100, gap)
@@ -724,7 +736,7 @@ def analyse_vam(ctx, script, obs, tag):
                                  f"(first={last is None}, last LF at {last_lf_at})", True, False)
         if c["lf"]:
             last_lf_at = rep["at"]
-        last = {"i": i, "ts": rep["ts"], "at": rep["at"]}
+        last = {"i": i, "ts": rep["ts"], "at": rep["at"], "c": c}
         gate_closed_since_last = False
         max_sp = 0
         impl.append([i, int(c["lf"]), c["gdt"]])
@@ -771,11 +783,11 @@ def gen_vam_script(rng, kind: str, n: int):
     for _ in range(n):
         if kind == "dynamics":
             if rng.random() < 0.25:
-                speed = max(0.0, speed + rng.choice([dy(31), dy(32), dy(33), dy(64), -dy(33), -dy(70)]))
+                speed = min(45.0, max(0.0, speed + rng.choice([dy(31), dy(32), dy(33), dy(64), -dy(33), -dy(70)])))
             if rng.random() < 0.25:
                 track = (track + rng.choice([dy(255), 4.0, dy(257), 10.0, -dy(257), 355.0])) % 360
         else:
-            speed = max(0.0, speed + rng.choice([0, 0, dy(1), -dy(1), dy(4)]))
+            speed = min(45.0, max(0.0, speed + rng.choice([0, 0, dy(1), -dy(1), dy(4)])))
             track = (track + rng.choice([0, 0, dy(8), -dy(8)])) % 360
         if kind == "turn" and rng.random() < 0.05:
             track = rng.choice([0.0, 360.0, dy(360 * 64 - 1), dy(1), 358.0, 2.0])
